@@ -368,3 +368,21 @@ Proof.
   - right. reflexivity.
   - reflexivity.
 Qed.
+
+(* ---------- the regenerated Python-type tables are the documented ones *)
+Lemma acceptable_table :
+  acceptable_types =
+    [("BooleanType", ["bool"]); ("ByteType", ["int"]); ("ShortType", ["int"]); ("IntegerType", ["int"]);
+     ("LongType", ["int"]); ("FloatType", ["float"]); ("DoubleType", ["float"]); ("DecimalType", ["Decimal"]);
+     ("StringType", ["str"]); ("BinaryType", ["bytearray"]); ("DateType", ["date"; "datetime"]);
+     ("TimestampType", ["datetime"]); ("ArrayType", ["list"; "tuple"; "array"]); ("MapType", ["dict"]);
+     ("StructType", ["tuple"; "list"; "dict"])]%string.
+Proof. reflexivity. Qed.
+
+Lemma type_mappings_table :
+  type_mappings =
+    [("NoneType", "NullType"); ("bool", "BooleanType"); ("int", "LongType"); ("float", "DoubleType");
+     ("str", "StringType"); ("bytearray", "BinaryType"); ("Decimal", "DecimalType"); ("date", "DateType");
+     ("datetime", "TimestampType"); ("time", "TimestampType")]%string /\
+  infer_decimal = (38, 18) /\ decimal_default = (10, 0).
+Proof. repeat split. Qed.
